@@ -195,7 +195,7 @@ def run_load(name, fmt, api, data, consume=("exhaust", 0), knobs=None, budget=No
 
     knobs = knobs or {}
     disk = seams.SimDisk(chunk_size=knobs.get("chunk_size"), encoding=knobs.get("encoding", "utf-8"),
-                         log_events=False)
+                         log_events=False, short_read=knobs.get("short_read"))
     disk.put(name, data)
     del _SPY[:]
     rec = {"exc": None, "frames": [], "finished": None, "warnings": []}
@@ -254,6 +254,7 @@ def run_load(name, fmt, api, data, consume=("exhaust", 0), knobs=None, budget=No
         except Exception as exc2:  # noqa: BLE001 - an error whose own message cannot be produced
             rec["str_fails"] = f"{type(exc2).__name__}: {exc2}"
     rec["steps"] = st.steps
+    rec["short_reads"] = disk.short_reads[0]
     rec["warnings"] = [type(x.message).__name__ for x in wlist]
     rec["warning_msgs"] = [f"{type(x.message).__name__}:{str(x.message).rsplit(' (', 1)[0]}" for x in wlist]
     rec["handles_open"] = len(disk.open_handles())
@@ -456,7 +457,7 @@ def execute(trace):
     budget = budget_for(trace["source"], trace["base_name"], trace.get("base_fmt"), trace["api"], data0)
     rec = run_load(trace["name"], trace.get("fmt"), trace["api"], data, tuple(trace.get("consume", ["exhaust", 0])),
                    trace.get("knobs"), budget)
-    return judge(trace, rec) + (judge_interleaved(trace, rec, data, budget) if trace.get("knobs") else [])
+    return judge(trace, rec) + ((judge_interleaved(trace, rec, data, budget) + judge_granularity(trace, rec, data, budget)) if trace.get("knobs") else [])
 
 
 # ------------------------------------------------------------------------------------------------
@@ -633,6 +634,9 @@ def gen_trace(rng, tier):
                        "pathlib": rng.choice([False] * 8 + [True, "pathlike"]), "in_thread": rng.random() < 0.08,
                        "fperr": "raise" if rng.random() < 0.1 else None,
                        "interleave": api == "load_many" and rng.random() < 0.25}}
+    if rng.random() < 0.2:
+        # the storage delivers the bytes in small portions (pipe, network file system): at most n bytes per read call
+        trace["knobs"]["short_read"] = rng.choice([1, 2, 3, 7, 61, 1000, 8191])
     if fmt is not None and not selectable(name, api, fmt):
         trace["api"] = api  # kept: FileFormatError expected
     return trace
@@ -731,6 +735,10 @@ def run_task(task):
             n += 1
             vs = judge(trace, rec)
             vs.extend(judge_interleaved(trace, rec, data, budget))
+            vs.extend(judge_granularity(trace, rec, data, budget))
+            if trace["knobs"].get("short_read"):
+                stats.inc("fault.short_read")
+                stats.inc("short_read_calls", rec.get("short_reads", 0))
             viols.extend(vs)
             _record(stats, trace, rec, data, data0, vs)
             dig.append((common.short(data), type(rec["exc"]).__name__, _s(rec["exc"])[:60], len(rec["frames"]), rec["steps"]))
@@ -749,12 +757,23 @@ def run_task(task):
 # ------------------------------------------------------------------------------------------------
 
 
+def _alloc_failed(rec):
+    e = rec["exc"]
+    while e is not None:
+        if isinstance(e, MemoryError):
+            return True
+        e = e.__cause__ or e.__context__
+    return False
+
+
 def judge_interleaved(trace, rec, data, budget):
     """A load_many whose consumer loaded another file between two frames: same frames / error / line as without."""
     if not trace["knobs"].get("interleave") or trace["api"] != "load_many" or tuple(trace["consume"])[0] != "exhaust":
         return []
     plain = run_load(trace["name"], trace["fmt"], trace["api"], data, tuple(trace["consume"]), {**trace["knobs"], "interleave": False}, budget)
     out = []
+    if _alloc_failed(rec) or _alloc_failed(plain):
+        return out  # (see judge_granularity)
     a = ([canon.iodata_digest(d) for d in rec["frames"]], type(rec["exc"]).__name__, getattr(rec["exc"], "lineno", None))
     b = ([canon.iodata_digest(d) for d in plain["frames"]], type(plain["exc"]).__name__, getattr(plain["exc"], "lineno", None))
     if a != b:
@@ -763,6 +782,35 @@ def judge_interleaved(trace, rec, data, budget):
     if rec.get("inner_errors"):
         out.append(_v("outcome_depends_on_interleaved_load", f"the intact file loaded between two frames was rejected: {rec['inner_errors'][0][:120]}", trace, "inner"))
     return out
+
+
+def judge_granularity(trace, rec, data, budget):
+    """How the storage portions the bytes (short reads, the text layer's chunk size) is invisible: same frames,
+    same error with the same message and line as with one full read.  Only for content that decodes cleanly in
+    the run's encoding - where CPython's decoder meets a bad byte depends on the portions, not on iodata."""
+    kn = trace["knobs"]
+    if not (kn.get("short_read") or kn.get("chunk_size")) or kn.get("interleave"):
+        return []
+    try:
+        data.decode(kn.get("encoding", "utf-8"))
+    except UnicodeDecodeError:
+        return []
+    plain = run_load(trace["name"], trace["fmt"], trace["api"], data, tuple(trace["consume"]), {**kn, "short_read": None, "chunk_size": None}, budget)
+
+    def view(r):
+        e = r["exc"]
+        return ([canon.iodata_digest(d) for d in r["frames"]], type(e).__name__, _s(e)[:300] if e is not None else None,
+                getattr(e, "lineno", None), r["finished"], sorted(r["warning_msgs"]))
+    a, b = view(rec), view(plain)
+    if _alloc_failed(rec) or _alloc_failed(plain):
+        # a failing allocation depends on what else the process holds at that moment (the first run's traceback
+        # keeps its arrays alive while the second one runs under the same address-space limit): not comparable
+        return []
+    if a != b:
+        what = "frames" if a[0] != b[0] else "error" if a[1:4] != b[1:4] else "warnings"
+        return [_v("outcome_depends_on_read_portions", f"{what} differ: {len(a[0])} frame(s) / {a[1]} {a[2]!r} at line {a[3]} with short_read={kn.get('short_read')} "
+                   f"chunk_size={kn.get('chunk_size')}, {len(b[0])} frame(s) / {b[1]} {b[2]!r} at line {b[3]} with full reads", trace, what)]
+    return []
 
 
 def shrink(trace, still_fails):
